@@ -159,7 +159,7 @@ theorem getLast?_append_cons' {α} (l : List α) (a : α) (t : List α) :
 
 /-! ### byte-slice algebra -/
 
-theorem slice_append_left {α} (l p : List α) (a b : Nat) (h : a + b ≤ l.length) :
+theorem mslice_append_left {α} (l p : List α) (a b : Nat) (h : a + b ≤ l.length) :
     ((l ++ p).drop a).take b = (l.drop a).take b := by
   rw [List.drop_append_of_le_length (by omega), List.take_append_of_le_length (by simp; omega)]
 
@@ -230,14 +230,14 @@ structure SegOk (hbase : Nat) (hist : Bytes) (g : MSeg) : Prop where
 
 /-- a copy loop that holds the indexed segment `g`: it is inside `g`, and it has
     written to its pipe exactly the history's bytes `[start, pos)` -/
-structure AofOk (hbase : Nat) (hist : Bytes) (r : MReader) (g : MSeg) : Prop where
+structure MAofOk (hbase : Nat) (hist : Bytes) (r : MReader) (g : MSeg) : Prop where
   inl : g.left ≤ r.pos
   inr : r.pos ≤ g.right
   base : hbase ≤ r.start
   ord : r.start ≤ r.pos
   out : r.out = (hist.drop (r.start - hbase)).take (r.pos - r.start)
 
-structure StreamOk (segs : List MSeg) (aofW : Option Nat) (readers : List MReader) (nextSid hbase : Nat)
+structure StreamOk (k : Bool) (segs : List MSeg) (aofW : Option Nat) (readers : List MReader) (nextSid hbase : Nat)
     (hist : Bytes) : Prop where
   contig : MContig segs
   segOk : ∀ g ∈ segs, SegOk hbase hist g
@@ -245,13 +245,13 @@ structure StreamOk (segs : List MSeg) (aofW : Option Nat) (readers : List MReade
   nodup : (segs.map (·.sid)).Nodup
   bound : ∀ g ∈ segs, g.sid < nextSid
   writer : ∀ cur, aofW = some cur → ∃ g, segs.getLast? = some g ∧ g.sid = cur
-  readers : ∀ r ∈ readers, r.isAof = true →
-    r.seg < nextSid ∧ (r.released = false → ∀ g ∈ segs, g.sid = r.seg → AofOk hbase hist r g)
+  readers : ∀ r ∈ readers, r.isAof = k →
+    r.seg < nextSid ∧ (r.released = false → ∀ g ∈ segs, g.sid = r.seg → MAofOk hbase hist r g)
 
-def StreamInv (s : Mem) : Prop := StreamOk s.segs s.aofW s.readers s.nextSid s.hbase s.hist
+def StreamInv (s : Mem) : Prop := StreamOk true s.segs s.aofW s.readers s.nextSid s.hbase s.hist
 
-theorem StreamOk.empty (rs : List MReader) (n hb : Nat) (hi : Bytes) (hr : ∀ r ∈ rs, r.isAof = true → r.seg < n) :
-    StreamOk [] none rs n hb hi where
+theorem StreamOk.empty {k : Bool} (rs : List MReader) (n hb : Nat) (hi : Bytes) (hr : ∀ r ∈ rs, r.isAof = k → r.seg < n) :
+    StreamOk k [] none rs n hb hi where
   contig := trivial
   segOk := by intro g hg; cases hg
   lastEnd := by intro g hg; simp at hg
@@ -261,8 +261,8 @@ theorem StreamOk.empty (rs : List MReader) (n hb : Nat) (hi : Bytes) (hr : ∀ r
   readers := by intro r hr' ha; exact ⟨hr r hr' ha, by intro _ g hg; cases hg⟩
 
 /-- the collector: a prefix of segments none of which is the writer's goes -/
-theorem StreamOk.dropPrefix {pre l : List MSeg} {w : Option Nat} {rs : List MReader} {n hb : Nat} {hi : Bytes}
-    (h : StreamOk (pre ++ l) w rs n hb hi) (hw : ∀ g ∈ pre, w ≠ some g.sid) : StreamOk l w rs n hb hi where
+theorem StreamOk.dropPrefix {k : Bool} {pre l : List MSeg} {w : Option Nat} {rs : List MReader} {n hb : Nat} {hi : Bytes}
+    (h : StreamOk k (pre ++ l) w rs n hb hi) (hw : ∀ g ∈ pre, w ≠ some g.sid) : StreamOk k l w rs n hb hi where
   contig := mcontig_suffix pre l h.contig
   segOk := fun g hg => h.segOk g (List.mem_append_right _ hg)
   lastEnd := by
@@ -292,22 +292,22 @@ theorem StreamOk.dropPrefix {pre l : List MSeg} {w : Option Nat} {rs : List MRea
     obtain ⟨h1, h2⟩ := h.readers r hr ha
     exact ⟨h1, fun hrel g hg hs => h2 hrel g (List.mem_append_right _ hg) hs⟩
 
-theorem StreamOk.seg_bound {l : List MSeg} {w : Option Nat} {rs : List MReader} {n hb : Nat} {hi : Bytes}
-    (h : StreamOk l w rs n hb hi) : ∀ r ∈ rs, r.isAof = true → r.seg < n :=
+theorem StreamOk.seg_bound {k : Bool} {l : List MSeg} {w : Option Nat} {rs : List MReader} {n hb : Nat} {hi : Bytes}
+    (h : StreamOk k l w rs n hb hi) : ∀ r ∈ rs, r.isAof = k → r.seg < n :=
   fun r hr ha => (h.readers r hr ha).1
 
 theorem SegOk.congr {hb : Nat} {hi : Bytes} {g g' : MSeg} (h : SegOk hb hi g) (hl : g'.left = g.left)
     (hd : g'.data = g.data) : SegOk hb hi g' :=
   ⟨by rw [hl]; exact h.lo, by unfold MSeg.right at *; rw [hl, hd]; exact h.hi, by rw [hl, hd]; exact h.data⟩
 
-theorem AofOk.congr {hb : Nat} {hi : Bytes} {r : MReader} {g g' : MSeg} (h : AofOk hb hi r g) (hl : g'.left = g.left)
-    (hd : g'.data = g.data) : AofOk hb hi r g' :=
+theorem MAofOk.congr {hb : Nat} {hi : Bytes} {r : MReader} {g g' : MSeg} (h : MAofOk hb hi r g) (hl : g'.left = g.left)
+    (hd : g'.data = g.data) : MAofOk hb hi r g' :=
   ⟨by rw [hl]; exact h.inl, by unfold MSeg.right at *; rw [hl, hd]; exact h.inr, h.base, h.ord, h.out⟩
 
 /-- closing segments (any map that keeps identity, offset and bytes) -/
-theorem StreamOk.mapSegs {l : List MSeg} {w : Option Nat} {rs : List MReader} {n hb : Nat} {hi : Bytes}
-    (h : StreamOk l w rs n hb hi) (f : MSeg → MSeg) (hs : ∀ g, (f g).sid = g.sid) (hl : ∀ g, (f g).left = g.left)
-    (hd : ∀ g, (f g).data = g.data) : StreamOk (l.map f) w rs n hb hi where
+theorem StreamOk.mapSegs {k : Bool} {l : List MSeg} {w : Option Nat} {rs : List MReader} {n hb : Nat} {hi : Bytes}
+    (h : StreamOk k l w rs n hb hi) (f : MSeg → MSeg) (hs : ∀ g, (f g).sid = g.sid) (hl : ∀ g, (f g).left = g.left)
+    (hd : ∀ g, (f g).data = g.data) : StreamOk k (l.map f) w rs n hb hi where
   contig := mcontig_map f hl (fun g => by unfold MSeg.right; rw [hl, hd]) l h.contig
   segOk := by
     intro g hg
@@ -344,9 +344,9 @@ theorem StreamOk.mapSegs {l : List MSeg} {w : Option Nat} {rs : List MReader} {n
 theorem mUpdate_eq_map (l : List MSeg) (sid : Nat) (f : MSeg → MSeg) :
     mUpdate l sid f = l.map (fun g => if g.sid == sid then f g else g) := rfl
 
-theorem StreamOk.closeSeg {l : List MSeg} {w : Option Nat} {rs : List MReader} {n hb : Nat} {hi : Bytes}
-    (h : StreamOk l w rs n hb hi) (cur : Nat) :
-    StreamOk (mUpdate l cur (fun g => { g with closed := true })) w rs n hb hi := by
+theorem StreamOk.closeSeg {k : Bool} {l : List MSeg} {w : Option Nat} {rs : List MReader} {n hb : Nat} {hi : Bytes}
+    (h : StreamOk k l w rs n hb hi) (cur : Nat) :
+    StreamOk k (mUpdate l cur (fun g => { g with closed := true })) w rs n hb hi := by
   rw [mUpdate_eq_map]
   apply h.mapSegs <;> intro g <;> split <;> rfl
 
@@ -369,9 +369,9 @@ theorem mUpdate_last {init : List MSeg} {last : MSeg} (hn : ((init ++ [last]).ma
   · simp
 
 /-- the writer appends a piece to its (last) segment; the history records it -/
-theorem StreamOk.appendPiece {l : List MSeg} {cur : Nat} {rs : List MReader} {n hb : Nat} {hi : Bytes}
-    (h : StreamOk l (some cur) rs n hb hi) (piece : Bytes) :
-    StreamOk (mUpdate l cur (fun g => { g with data := g.data ++ piece })) (some cur) rs n hb (hi ++ piece) := by
+theorem StreamOk.appendPiece {k : Bool} {l : List MSeg} {cur : Nat} {rs : List MReader} {n hb : Nat} {hi : Bytes}
+    (h : StreamOk k l (some cur) rs n hb hi) (piece : Bytes) :
+    StreamOk k (mUpdate l cur (fun g => { g with data := g.data ++ piece })) (some cur) rs n hb (hi ++ piece) := by
   obtain ⟨last, hlast, hsid⟩ := h.writer cur rfl
   obtain ⟨init, rfl⟩ := List.getLast?_eq_some_iff.mp hlast
   subst hsid
@@ -382,12 +382,12 @@ theorem StreamOk.appendPiece {l : List MSeg} {cur : Nat} {rs : List MReader} {n 
     intro g hg
     have hg' := h.segOk g (List.mem_append_left _ hg)
     refine ⟨hg'.lo, by have := hg'.hi; simp; omega, ?_⟩
-    rw [slice_append_left _ _ _ _ (by have := hg'.hi; have := hg'.lo; unfold MSeg.right at *; omega)]
+    rw [mslice_append_left _ _ _ _ (by have := hg'.hi; have := hg'.lo; unfold MSeg.right at *; omega)]
     exact hg'.data
-  have hrd : ∀ r g, AofOk hb hi r g → g.right ≤ hb + hi.length →
+  have hrd : ∀ r g, MAofOk hb hi r g → g.right ≤ hb + hi.length →
       r.out = ((hi ++ piece).drop (r.start - hb)).take (r.pos - r.start) := by
     intro r g hr hg
-    rw [slice_append_left _ _ _ _ (by have := hr.inr; have := hr.base; have := hr.ord; omega)]
+    rw [mslice_append_left _ _ _ _ (by have := hr.inr; have := hr.base; have := hr.ord; omega)]
     exact hr.out
   constructor
   · rw [mcontig_append_single]
@@ -431,9 +431,9 @@ theorem StreamOk.appendPiece {l : List MSeg} {cur : Nat} {rs : List MReader} {n 
       exact ⟨hok.inl, by have := hok.inr; unfold MSeg.right at *; simp; omega, hok.base, hok.ord, hrd r last hok hL.hi⟩
 
 /-- a new, empty segment at the end of the history (rotation, new writer) -/
-theorem StreamOk.pushSeg {l : List MSeg} {w : Option Nat} {rs : List MReader} {n hb : Nat} {hi : Bytes}
-    (h : StreamOk l w rs n hb hi) (x : MSeg) (hs : x.sid = n) (hd : x.data = []) (hl : x.left = hb + hi.length) :
-    StreamOk (l ++ [x]) (some n) rs (n + 1) hb hi where
+theorem StreamOk.pushSeg {k : Bool} {l : List MSeg} {w : Option Nat} {rs : List MReader} {n hb : Nat} {hi : Bytes}
+    (h : StreamOk k l w rs n hb hi) (x : MSeg) (hs : x.sid = n) (hd : x.data = []) (hl : x.left = hb + hi.length) :
+    StreamOk k (l ++ [x]) (some n) rs (n + 1) hb hi where
   contig := by
     rw [mcontig_append_single]
     exact ⟨h.contig, fun g hg => by rw [h.lastEnd g hg, hl]⟩
@@ -472,9 +472,9 @@ theorem StreamOk.pushSeg {l : List MSeg} {w : Option Nat} {rs : List MReader} {n
     · rw [List.mem_singleton] at hg; subst hg; omega
 
 /-- an empty segment that is not the writer's leaves the index -/
-theorem StreamOk.filterEmpty {l : List MSeg} {w : Option Nat} {rs : List MReader} {n hb : Nat} {hi : Bytes}
-    (h : StreamOk l w rs n hb hi) (cur : Nat) (he : ∀ g ∈ l, g.sid = cur → g.data = []) (hw : w ≠ some cur) :
-    StreamOk (l.filter (fun x => x.sid != cur)) w rs n hb hi := by
+theorem StreamOk.filterEmpty {k : Bool} {l : List MSeg} {w : Option Nat} {rs : List MReader} {n hb : Nat} {hi : Bytes}
+    (h : StreamOk k l w rs n hb hi) (cur : Nat) (he : ∀ g ∈ l, g.sid = cur → g.data = []) (hw : w ≠ some cur) :
+    StreamOk k (l.filter (fun x => x.sid != cur)) w rs n hb hi := by
   obtain ⟨c1, _, c3⟩ := mcontig_filter_empty (fun x => x.sid != cur) l h.contig
     (fun g hg hp => he g hg (by simpa using hp))
   constructor
@@ -504,8 +504,8 @@ theorem StreamOk.filterEmpty {l : List MSeg} {w : Option Nat} {rs : List MReader
     exact ⟨h1, fun hrel g hg hs => h2 hrel g (List.mem_filter.mp hg).1 hs⟩
 
 /-- the writer goes (`mc.aofWriter = nil`) -/
-theorem StreamOk.noWriter {l : List MSeg} {w : Option Nat} {rs : List MReader} {n hb : Nat} {hi : Bytes}
-    (h : StreamOk l w rs n hb hi) : StreamOk l none rs n hb hi :=
+theorem StreamOk.noWriter {k : Bool} {l : List MSeg} {w : Option Nat} {rs : List MReader} {n hb : Nat} {hi : Bytes}
+    (h : StreamOk k l w rs n hb hi) : StreamOk k l none rs n hb hi :=
   ⟨h.contig, h.segOk, h.lastEnd, h.nodup, h.bound, (by intro c hc; cases hc), h.readers⟩
 
 /-! ### reader updates -/
@@ -517,20 +517,20 @@ theorem mem_mSetReader {rs : List MReader} {r x : MReader} (hx : x ∈ mSetReade
   · right; rfl
   · left; exact hy
 
-theorem StreamOk.setReader {l : List MSeg} {w : Option Nat} {rs : List MReader} {n hb : Nat} {hi : Bytes}
-    (h : StreamOk l w rs n hb hi) (r' : MReader)
-    (hr' : r'.isAof = true → r'.seg < n ∧ (r'.released = false → ∀ g ∈ l, g.sid = r'.seg → AofOk hb hi r' g)) :
-    StreamOk l w (mSetReader rs r') n hb hi :=
+theorem StreamOk.setReader {k : Bool} {l : List MSeg} {w : Option Nat} {rs : List MReader} {n hb : Nat} {hi : Bytes}
+    (h : StreamOk k l w rs n hb hi) (r' : MReader)
+    (hr' : r'.isAof = k → r'.seg < n ∧ (r'.released = false → ∀ g ∈ l, g.sid = r'.seg → MAofOk hb hi r' g)) :
+    StreamOk k l w (mSetReader rs r') n hb hi :=
   ⟨h.contig, h.segOk, h.lastEnd, h.nodup, h.bound, h.writer, by
       intro r hr ha
       rcases mem_mSetReader hr with hr | rfl
       · exact h.readers r hr ha
       · exact hr' ha⟩
 
-theorem StreamOk.addReader {l : List MSeg} {w : Option Nat} {rs : List MReader} {n hb : Nat} {hi : Bytes}
-    (h : StreamOk l w rs n hb hi) (r' : MReader)
-    (hr' : r'.isAof = true → r'.seg < n ∧ (r'.released = false → ∀ g ∈ l, g.sid = r'.seg → AofOk hb hi r' g)) :
-    StreamOk l w (rs ++ [r']) n hb hi :=
+theorem StreamOk.addReader {k : Bool} {l : List MSeg} {w : Option Nat} {rs : List MReader} {n hb : Nat} {hi : Bytes}
+    (h : StreamOk k l w rs n hb hi) (r' : MReader)
+    (hr' : r'.isAof = k → r'.seg < n ∧ (r'.released = false → ∀ g ∈ l, g.sid = r'.seg → MAofOk hb hi r' g)) :
+    StreamOk k l w (rs ++ [r']) n hb hi :=
   ⟨h.contig, h.segOk, h.lastEnd, h.nodup, h.bound, h.writer, by
       intro r hr ha
       rcases List.mem_append.mp hr with hr | hr
@@ -539,7 +539,7 @@ theorem StreamOk.addReader {l : List MSeg} {w : Option Nat} {rs : List MReader} 
 
 /-! ### the snapshot part of the invariant -/
 
-structure RdbOk (ro : Option MRdb) (n : Nat) : Prop where
+structure MRdbOk (ro : Option MRdb) (n : Nat) : Prop where
   nonempty : ∀ r, ro = some r → r.segs ≠ []
   live : ∀ r, ro = some r → r.writing = true ∨ r.size ≤ r.written
   whole : ∀ r, ro = some r → r.replayable = true → mBuffered r.segs = r.written
@@ -547,17 +547,17 @@ structure RdbOk (ro : Option MRdb) (n : Nat) : Prop where
   bound : ∀ r, ro = some r → ∀ g ∈ r.segs, g.sid < n
   cur : ∀ r, ro = some r → r.writing = true → ∃ g, r.segs.getLast? = some g ∧ g.sid = r.cur ∧ g.closed = false
 
-theorem RdbOk.none (n : Nat) : RdbOk none n :=
+theorem MRdbOk.none (n : Nat) : MRdbOk none n :=
   ⟨(by intro r h; cases h), (by intro r h; cases h), (by intro r h; cases h), (by intro r h; cases h),
    (by intro r h; cases h), (by intro r h; cases h)⟩
 
-theorem RdbOk.mono {ro : Option MRdb} {n m : Nat} (h : RdbOk ro n) (hnm : n ≤ m) : RdbOk ro m :=
+theorem MRdbOk.mono {ro : Option MRdb} {n m : Nat} (h : MRdbOk ro n) (hnm : n ≤ m) : MRdbOk ro m :=
   ⟨h.nonempty, h.live, h.whole, h.nodup, fun r hr g hg => Nat.lt_of_lt_of_le (h.bound r hr g hg) hnm, h.cur⟩
 
 /-- the global invariant of the memory backend -/
 structure MemInv (s : Mem) : Prop where
   stream : StreamInv s
-  rdb : RdbOk s.rdb s.nextSid
+  rdb : MRdbOk s.rdb s.nextSid
 
 /-- how the collector may change the snapshot -/
 def RdbStep (a b : Option MRdb) : Prop :=
@@ -630,7 +630,7 @@ theorem gcRdb_inv {s s' : Mem} (h : s.gcRdb = some s') (hi : MemInv s) : MemInv 
         refine ⟨⟨hi.stream, ?_⟩, ⟨rfl, rfl, rfl, rfl, rfl, rfl, rfl, rfl, rfl, rfl, ?_, ⟨[], rfl⟩⟩⟩
         · dsimp only
           cases rest with
-          | nil => rw [if_pos rfl]; exact RdbOk.none _
+          | nil => rw [if_pos rfl]; exact MRdbOk.none _
           | cons x xs =>
             rw [if_neg (by simp)]
             have hnd := hR.nodup r hr
@@ -818,7 +818,7 @@ theorem finishAof_inv (s : Mem) (cur : Nat) (isCurrent : Bool) (hi : MemInv s)
   unfold Mem.finishAof
   have hst := hi.stream
   unfold StreamInv at hst
-  have h1 : StreamOk (mUpdate s.segs cur (fun g => { g with closed := true })) (if isCurrent then none else s.aofW)
+  have h1 : StreamOk true (mUpdate s.segs cur (fun g => { g with closed := true })) (if isCurrent then none else s.aofW)
       s.readers s.nextSid s.hbase s.hist := by
     cases isCurrent with
     | true => exact (hst.closeSeg cur).noWriter
@@ -848,15 +848,15 @@ theorem finishAof_inv (s : Mem) (cur : Nat) (isCurrent : Bool) (hi : MemInv s)
         exact List.isEmpty_iff.mp he
       refine gc_finish _ s 0 ?_ ?_ _ ?_ <;> first | exact ⟨h1.filterEmpty cur hempty hwne, hi.rdb⟩ | exact Keeps.refl _ | exact ⟨Nat.le_refl _, rfl, rfl, rfl⟩ | rfl
 
-theorem StreamOk.monoSid {l : List MSeg} {w : Option Nat} {rs : List MReader} {n m hb : Nat} {hi : Bytes}
-    (h : StreamOk l w rs n hb hi) (hnm : n ≤ m) : StreamOk l w rs m hb hi :=
+theorem StreamOk.monoSid {k : Bool} {l : List MSeg} {w : Option Nat} {rs : List MReader} {n m hb : Nat} {hi : Bytes}
+    (h : StreamOk k l w rs n hb hi) (hnm : n ≤ m) : StreamOk k l w rs m hb hi :=
   ⟨h.contig, h.segOk, h.lastEnd, h.nodup, fun g hg => Nat.lt_of_lt_of_le (h.bound g hg) hnm, h.writer,
    fun r hr ha => ⟨Nat.lt_of_lt_of_le (h.readers r hr ha).1 hnm, (h.readers r hr ha).2⟩⟩
 
 /-! ### reset -/
 
 theorem reset_inv (s : Mem) (hi : MemInv s) : MemInv s.reset ∧ s.reset.nextSid = s.nextSid ∧ s.reset.readers = s.readers := by
-  refine ⟨⟨?_, RdbOk.none _⟩, rfl, rfl⟩
+  refine ⟨⟨?_, MRdbOk.none _⟩, rfl, rfl⟩
   unfold StreamInv Mem.reset
   dsimp only
   exact StreamOk.empty _ _ _ _ hi.stream.seg_bound
@@ -897,7 +897,7 @@ theorem finishRdb_inv (s : Mem) (failed : Bool) (hi : MemInv s) :
     | true =>
       simp only [Bool.not_true, Bool.false_eq_true, if_false]
       split
-      · refine ⟨⟨hi.stream, RdbOk.none _⟩, ⟨?_, ?_, ?_, ?_⟩, ?_, ?_⟩ <;> first | rfl | trivial | exact Nat.le_refl _
+      · refine ⟨⟨hi.stream, MRdbOk.none _⟩, ⟨?_, ?_, ?_, ?_⟩, ?_, ?_⟩ <;> first | rfl | trivial | exact Nat.le_refl _
       · rename_i hc
         simp only [Bool.or_eq_true, decide_eq_true_eq, not_or, Nat.not_lt] at hc
         refine ⟨⟨hi.stream, ?_⟩, ⟨Nat.le_refl _, rfl, rfl, rfl⟩, rfl, rfl⟩
@@ -1123,7 +1123,7 @@ theorem appendRdbLoop_inv (fuel : Nat) : ∀ (s : Mem) (buf : Bytes) (done : Nat
 theorem mFindReader_mem {rs : List MReader} {rid : Nat} {r : MReader} (h : mFindReader rs rid = some r) : r ∈ rs :=
   List.mem_of_find?_eq_some h
 
-theorem indexAof_some {s : Mem} (hc : MContig s.segs) {off : Nat} {g : MSeg} (h : s.indexAof off = some g) :
+theorem mem_indexAof_some {s : Mem} (hc : MContig s.segs) {off : Nat} {g : MSeg} (h : s.indexAof off = some g) :
     g ∈ s.segs ∧ g.left ≤ off ∧ off ≤ g.right := by
   unfold Mem.indexAof Mem.runRev at h
   have hm := List.mem_of_find?_eq_some h
@@ -1168,16 +1168,16 @@ theorem mNextOf_some {l : List MSeg} {sid : Nat} {nx : MSeg} (h : mNextOf l sid 
 theorem mcontig_adjacent {pre post : List MSeg} {g0 nx : MSeg} (h : MContig (pre ++ g0 :: nx :: post)) :
     g0.right = nx.left := (mcontig_suffix pre _ h).1
 
-theorem AofOk.congrReader {hb : Nat} {hi : Bytes} {r r' : MReader} {g : MSeg} (h : AofOk hb hi r g)
-    (hp : r'.pos = r.pos) (hs : r'.start = r.start) (ho : r'.out = r.out) : AofOk hb hi r' g :=
+theorem MAofOk.congrReader {hb : Nat} {hi : Bytes} {r r' : MReader} {g : MSeg} (h : MAofOk hb hi r g)
+    (hp : r'.pos = r.pos) (hs : r'.start = r.start) (ho : r'.out = r.out) : MAofOk hb hi r' g :=
   ⟨by rw [hp]; exact h.inl, by rw [hp]; exact h.inr, by rw [hs]; exact h.base, by rw [hs, hp]; exact h.ord,
    by rw [ho, hs, hp]; exact h.out⟩
 
 /-- a reader whose copy-loop position is untouched keeps its clause -/
-theorem StreamOk.touchReader {l : List MSeg} {w : Option Nat} {rs : List MReader} {n hb : Nat} {hi : Bytes}
-    (h : StreamOk l w rs n hb hi) {r : MReader} (hr : r ∈ rs) (r' : MReader) (ha : r'.isAof = r.isAof)
+theorem StreamOk.touchReader {k : Bool} {l : List MSeg} {w : Option Nat} {rs : List MReader} {n hb : Nat} {hi : Bytes}
+    (h : StreamOk k l w rs n hb hi) {r : MReader} (hr : r ∈ rs) (r' : MReader) (ha : r'.isAof = r.isAof)
     (hseg : r'.seg = r.seg) (hp : r'.pos = r.pos) (hs : r'.start = r.start) (ho : r'.out = r.out)
-    (hrel : r'.released = false → r.released = false) : StreamOk l w (mSetReader rs r') n hb hi := by
+    (hrel : r'.released = false → r.released = false) : StreamOk k l w (mSetReader rs r') n hb hi := by
   apply h.setReader
   intro ha'
   obtain ⟨h1, h2⟩ := h.readers r hr (by rw [← ha]; exact ha')
@@ -1197,7 +1197,7 @@ theorem open_inv (s : Mem) (rid off : Nat) (hi : MemInv s) : MemInv (s.open rid 
         have hst := hi.stream
         unfold StreamInv at hst ⊢
         dsimp only
-        obtain ⟨hg, hl, hr⟩ := indexAof_some hst.contig hidx
+        obtain ⟨hg, hl, hr⟩ := mem_indexAof_some hst.contig hidx
         apply hst.addReader
         intro _
         refine ⟨hst.bound g hg, fun _ g' hg' hs => ?_⟩
@@ -1224,9 +1224,9 @@ theorem open_inv (s : Mem) (rid off : Nat) (hi : MemInv s) : MemInv (s.open rid 
           · exact hi
 
 /-- the copy loop returns (or fails): the reader is released -/
-theorem StreamOk.finishReader {l : List MSeg} {w : Option Nat} {rs : List MReader} {n hb : Nat} {hi : Bytes}
-    (h : StreamOk l w rs n hb hi) {r : MReader} (hr : r ∈ rs) (st : RSt) :
-    StreamOk l w (mSetReader rs { r with st := st, released := true }) n hb hi := by
+theorem StreamOk.finishReader {k : Bool} {l : List MSeg} {w : Option Nat} {rs : List MReader} {n hb : Nat} {hi : Bytes}
+    (h : StreamOk k l w rs n hb hi) {r : MReader} (hr : r ∈ rs) (st : RSt) :
+    StreamOk k l w (mSetReader rs { r with st := st, released := true }) n hb hi := by
   apply h.setReader
   intro ha
   exact ⟨(h.readers r hr ha).1, fun hrel => by cases hrel⟩
@@ -1277,7 +1277,7 @@ theorem copyStep_inv (s : Mem) (rid : Nat) (hi : MemInv s) : MemInv (s.copyStep 
               · -- bytes of the held segment go to the pipe
                 rename_i hbs
                 refine ⟨?_, hi.rdb⟩
-                show StreamOk s.segs s.aofW (mSetReader s.readers _) s.nextSid s.hbase s.hist
+                show StreamOk true s.segs s.aofW (mSetReader s.readers _) s.nextSid s.hbase s.hist
                 apply hst.setReader
                 intro _
                 obtain ⟨h1, h2⟩ := hst.readers r hrm hra
@@ -1315,7 +1315,7 @@ theorem copyStep_inv (s : Mem) (rid : Nat) (hi : MemInv s) : MemInv (s.copyStep 
                   | some nx =>
                     dsimp only
                     refine ⟨?_, hi.rdb⟩
-                    show StreamOk s.segs s.aofW (mSetReader s.readers _) s.nextSid s.hbase s.hist
+                    show StreamOk true s.segs s.aofW (mSetReader s.readers _) s.nextSid s.hbase s.hist
                     obtain ⟨pre, g0, post, hl, hs0⟩ := mNextOf_some hnx
                     have hg0 : g0 ∈ s.segs := by rw [hl]; simp
                     have hnxm : nx ∈ s.segs := by rw [hl]; simp
@@ -1402,7 +1402,7 @@ theorem retry_inv (s : Mem) (hi : MemInv s) : MemInv s.retry.1 := by
       cases hr : s.rdb with
       | none =>
         dsimp only
-        exact ⟨hi.stream, RdbOk.none _⟩
+        exact ⟨hi.stream, MRdbOk.none _⟩
       | some r =>
         dsimp only
         have hrk := hi.rdb
@@ -1413,11 +1413,594 @@ theorem retry_inv (s : Mem) (hi : MemInv s) : MemInv s.retry.1 := by
           split
           · exact ⟨h1.stream, h1.rdb⟩
           · have h2 : MemInv { (Mem.appendRdbLoop (buf.length + 1) s buf 0).1 with pendR := none } := ⟨h1.stream, h1.rdb⟩
-            dsimp only
             split
             · split
               · exact (finishRdb_inv _ false h2).1
               · exact h2
             · exact h2
+
+/-! ### every operation preserves the invariant -/
+
+theorem mLastRight_eq (l : List MSeg) : mLastRight l = l.getLast?.map (·.right) := by
+  induction l with
+  | nil => rfl
+  | cons a t ih =>
+    cases t with
+    | nil => rfl
+    | cons b t' =>
+      simp only [mLastRight, List.getLast?_cons_cons]
+      exact ih
+
+theorem MemInv.init (l m : Nat) : MemInv (Mem.init l m) :=
+  ⟨StreamOk.empty _ _ _ _ (by intro r hr; cases hr), MRdbOk.none _⟩
+
+theorem newAofWriter_tail (s s1 : Mem) (h1 : MemInv s1) (hs : StreamInv s) (hw : s1.aofW = some s.nextSid) :
+    MemInv (match s.aofW with
+      | some old => s1.finishAof old false
+      | none => s1) := by
+  cases haw : s.aofW with
+  | none => exact h1
+  | some old =>
+    dsimp only
+    refine (finishAof_inv s1 old false h1 ?_).1
+    intro _ e
+    rw [hw] at e; cases e
+    obtain ⟨g, hg, hsid⟩ := hs.writer s.nextSid haw
+    have := hs.bound g (List.mem_of_getLast? hg)
+    omega
+
+theorem step_inv (s : Mem) (op : MOp) (hi : MemInv s) : MemInv (s.step op).1 := by
+  have hst := hi.stream
+  unfold StreamInv at hst
+  cases op with
+  | setRunId id => exact ⟨hi.stream, hi.rdb⟩
+  | delRunId id =>
+    simp only [Mem.step]
+    split
+    · exact hi
+    · have := (reset_inv s hi).1
+      exact ⟨this.stream, this.rdb⟩
+  | newRdbWriter off size =>
+    simp only [Mem.step]
+    obtain ⟨h1, hn, _⟩ := reset_inv s hi
+    refine ⟨StreamOk.monoSid h1.stream (Nat.le_succ _), ?_⟩
+    dsimp only
+    refine ⟨?_, ?_, ?_, ?_, ?_, ?_⟩
+    · intro r h; cases h; simp
+    · intro r h; cases h; exact Or.inl rfl
+    · intro r h _; cases h; simp [mBuffered]
+    · intro r h; cases h; simp
+    · intro r h g hg; cases h
+      simp only [List.mem_singleton] at hg; subst hg
+      show s.reset.nextSid < s.reset.nextSid + 1; omega
+    · intro r h _; cases h
+      exact ⟨_, rfl, rfl, rfl⟩
+  | rdbAppend chunk =>
+    simp only [Mem.step]
+    have h1 := (appendRdbLoop_inv (chunk.length + 1) s chunk 0 hi).1
+    split
+    · exact ⟨h1.stream, h1.rdb⟩
+    · split
+      · split
+        · exact (finishRdb_inv _ false h1).1
+        · exact h1
+      · exact h1
+  | rdbClose => exact (finishRdb_inv s false hi).1
+  | newAofWriter off =>
+    simp only [Mem.step]
+    cases hlr : mLastRight s.segs with
+    | some r =>
+      dsimp only
+      split
+      · exact hi
+      · rename_i hne
+        have hro : r = off := by simpa using hne
+        subst hro
+        rw [mLastRight_eq] at hlr
+        cases hl : s.segs.getLast? with
+        | none => rw [hl] at hlr; cases hlr
+        | some last =>
+          rw [hl] at hlr
+          simp at hlr
+          have hend := hst.lastEnd last hl
+          apply newAofWriter_tail s _ _ hi.stream rfl
+          refine ⟨?_, hi.rdb.mono (Nat.le_succ _)⟩
+          exact hst.pushSeg _ rfl rfl (by show r = _; rw [← hlr]; exact hend)
+    | none =>
+      dsimp only
+      rw [mLastRight_eq] at hlr
+      have hnil : s.segs = [] := by
+        cases hs : s.segs with
+        | nil => rfl
+        | cons a t =>
+          rw [hs] at hlr
+          cases hg : (a :: t).getLast? with
+          | none => simp at hg
+          | some x => rw [hg] at hlr; simp at hlr
+      apply newAofWriter_tail s _ _ hi.stream rfl
+      refine ⟨?_, hi.rdb.mono (Nat.le_succ _)⟩
+      have := (StreamOk.empty s.readers s.nextSid off [] hst.seg_bound).pushSeg
+        { sid := s.nextSid, left := off, data := [], closed := false, next := none } rfl rfl (by simp)
+      exact this
+  | aofAppend chunk =>
+    simp only [Mem.step]
+    cases haw : s.aofW with
+    | none => exact hi
+    | some cur =>
+      dsimp only
+      have h1 := appendAofLoop_inv (chunk.length + 1) s chunk 0 hi
+      split
+      · exact ⟨h1.stream, h1.rdb⟩
+      · exact h1
+  | aofClose =>
+    simp only [Mem.step]
+    cases haw : s.aofW with
+    | none => exact hi
+    | some cur => exact (finishAof_inv s cur true hi (by intro h; cases h)).1
+  | openReader rid off => exact open_inv s rid off hi
+  | startReader rid =>
+    simp only [Mem.step]
+    cases hfr : mFindReader s.readers rid with
+    | none => exact hi
+    | some r =>
+      dsimp only
+      split
+      · exact hi
+      · exact touch_inv s hi (mFindReader_mem hfr) _ rfl rfl rfl rfl rfl (fun h => h)
+  | copyStep rid => exact copyStep_inv s rid hi
+  | consume rid n => exact consume_inv s rid n hi
+  | closeReader rid => exact closeReader_inv s rid hi
+  | retryAppend => exact retry_inv s hi
+
+theorem run_inv (s : Mem) (ops : List MOp) (hi : MemInv s) : MemInv (s.run ops) := by
+  induction ops generalizing s with
+  | nil => exact hi
+  | cons op rest ih => exact ih _ (step_inv s op hi)
+
+/-! ### the driver's settling (copy loops run until blocked, blocked writers retry) -/
+
+theorem settleReader_inv (fuel : Nat) : ∀ (s : Mem) (rid : Nat), MemInv s → MemInv (Mem.settleReader fuel s rid) := by
+  induction fuel with
+  | zero => intro s rid hi; exact hi
+  | succ fuel ih =>
+    intro s rid hi
+    simp only [Mem.settleReader]
+    have h1 := copyStep_inv s rid hi
+    split
+    · exact ih _ rid h1
+    · exact h1
+
+theorem foldl_inv {α} (f : Mem → α → Mem) (hf : ∀ s a, MemInv s → MemInv (f s a)) (l : List α) :
+    ∀ s, MemInv s → MemInv (l.foldl f s) := by
+  induction l with
+  | nil => intro s hi; exact hi
+  | cons a t ih => intro s hi; exact ih _ (hf s a hi)
+
+theorem settleReaders_inv (s : Mem) (hi : MemInv s) : MemInv s.settleReaders := by
+  unfold Mem.settleReaders
+  exact foldl_inv _ (fun acc r h => settleReader_inv _ acc r.id h) _ s hi
+
+theorem settleLoop_inv (fuel : Nat) : ∀ (s : Mem), MemInv s → MemInv (Mem.settleLoop fuel s) := by
+  induction fuel with
+  | zero => intro s hi; exact hi
+  | succ fuel ih =>
+    intro s hi
+    simp only [Mem.settleLoop]
+    have h1 := retry_inv _ (settleReaders_inv s hi)
+    split
+    · exact ih _ h1
+    · exact h1
+
+theorem settle_inv (s : Mem) (hi : MemInv s) : MemInv s.settle := settleLoop_inv _ s hi
+
+/-! ### what the invariant gives -/
+
+theorem contig_head_le_last : ∀ (l : List MSeg) (x : MSeg), MContig (x :: l) → ∀ z, (x :: l).getLast? = some z →
+    x.left ≤ z.right := by
+  intro l
+  induction l with
+  | nil => intro x _ z hz; simp at hz; subst hz; unfold MSeg.right; omega
+  | cons u us ihu =>
+    intro x hcx z hz
+    have hz' : (u :: us).getLast? = some z := by simpa [List.getLast?_cons_cons] using hz
+    have := ihu u hcx.2 z hz'
+    have := hcx.1
+    unfold MSeg.right at *; omega
+
+/-- the indexed segments, concatenated, are the written history from the first segment's offset -/
+theorem flat_eq_slice {hb : Nat} {hi : Bytes} : ∀ (t : List MSeg) (a : MSeg),
+    MContig (a :: t) → (∀ g ∈ a :: t, SegOk hb hi g) →
+    ∀ last, (a :: t).getLast? = some last →
+      (a :: t).flatMap (·.data) = (hi.drop (a.left - hb)).take (last.right - a.left) := by
+  intro t
+  induction t with
+  | nil =>
+    intro a hc hs last hl
+    simp at hl; subst hl
+    simp only [List.flatMap_cons, List.flatMap_nil, List.append_nil]
+    have := (hs a (by simp)).data
+    unfold MSeg.right
+    rw [Nat.add_sub_cancel_left]
+    exact this
+  | cons b t' ih =>
+    intro a hc hs last hl
+    have hl' : (b :: t').getLast? = some last := by simpa [List.getLast?_cons_cons] using hl
+    have ihb := ih b hc.2 (fun g hg => hs g (List.mem_cons_of_mem _ hg)) last hl'
+    rw [List.flatMap_cons, ihb]
+    have hf := hs a (by simp)
+    have hadj : a.right = b.left := hc.1
+    have hge : b.left ≤ last.right := contig_head_le_last t' b hc.2 last hl'
+    rw [hf.data]
+    have e1 : b.left - hb = (a.left - hb) + a.data.length := by
+      have := hf.lo; unfold MSeg.right at hadj; omega
+    have e2 : last.right - a.left = a.data.length + (last.right - b.left) := by
+      unfold MSeg.right at hadj; omega
+    rw [e1, e2]
+    exact slice_glue _ _ _ _
+
+theorem StreamOk.flat {k : Bool} {l : List MSeg} {w : Option Nat} {rs : List MReader} {n hb : Nat} {hi : Bytes}
+    (h : StreamOk k l w rs n hb hi) (first : MSeg) (rest : List MSeg) (hl : l = first :: rest) :
+    hb ≤ first.left ∧ l.flatMap (·.data) = hi.drop (first.left - hb) ∧
+      first.left + (l.flatMap (·.data)).length = hb + hi.length := by
+  have hne : l ≠ [] := by rw [hl]; simp
+  obtain ⟨last, hlast⟩ : ∃ last, l.getLast? = some last := by
+    cases hg : l.getLast? with
+    | none => exact absurd (List.getLast?_eq_none_iff.mp hg) hne
+    | some x => exact ⟨x, rfl⟩
+  subst hl
+  have hflat := flat_eq_slice rest first h.contig h.segOk last hlast
+  have hend := h.lastEnd last hlast
+  have hlo := (h.segOk first (by simp)).lo
+  have hfl : first.left ≤ last.right := by
+    have := (h.segOk first (by simp)).hi
+    rw [hend]; unfold MSeg.right at this; omega
+  have hfull : (hi.drop (first.left - hb)).take (last.right - first.left) = hi.drop (first.left - hb) := by
+    apply List.take_of_length_le
+    simp; omega
+  refine ⟨hlo, by rw [hflat, hfull], ?_⟩
+  rw [hflat, hfull]
+  simp; omega
+
+theorem runRev_eq (s : Mem) (hi : MemInv s) : s.runRev = s.segs.reverse := by
+  unfold Mem.runRev
+  rw [mContigRun_of_contig _ hi.stream.contig]
+
+/-- what the cache holds is the suffix of the written history from its base -/
+theorem mem_abs_bytes_eq (s : Mem) (hi : MemInv s) (hne : s.segs ≠ []) :
+    s.hbase ≤ s.abs.base ∧ s.abs.bytes = s.hist.drop (s.abs.base - s.hbase) ∧
+      s.abs.base + s.abs.bytes.length = s.hbase + s.hist.length := by
+  cases hs : s.segs with
+  | nil => exact absurd hs hne
+  | cons first rest =>
+    have hst := hi.stream
+    unfold StreamInv at hst
+    have hf := hst.flat first rest hs
+    have hb : s.abs.base = first.left := by
+      unfold Mem.abs
+      dsimp only
+      rw [runRev_eq s hi, hs]
+      simp
+    have hby : s.abs.bytes = s.segs.flatMap (·.data) := by
+      unfold Mem.abs
+      dsimp only
+      rw [runRev_eq s hi, List.reverse_reverse]
+    rw [hb, hby]
+    exact hf
+
+/-- an offset is reported valid exactly if a reader can be opened there -/
+theorem mem_inRange_iff_open (s : Mem) (hi : MemInv s) (rid off : Nat) (hfresh : mFindReader s.readers rid = none) :
+    s.inRange (off : Int) = true ↔ (s.open rid off).2 ≠ Out.notExist := by
+  unfold Mem.open
+  rw [hfresh]
+  simp only [Option.isSome_none, Bool.false_eq_true, if_false]
+  cases hin : s.inRange (off : Int) with
+  | false => simp
+  | true =>
+    simp only [Bool.not_true, Bool.false_eq_true, if_false, true_iff]
+    cases hidx : s.indexAof off with
+    | some g => simp
+    | none =>
+      dsimp only
+      unfold Mem.inRange at hin
+      have hnn : ¬ ((off : Int) < 0) := by omega
+      simp only [hnn, if_false, Int.toNat_natCast, hidx, Option.isSome_none, Bool.false_or] at hin
+      cases hro : s.rdbOffered with
+      | none => rw [hro] at hin; simp at hin
+      | some rd =>
+        rw [hro] at hin
+        dsimp only at hin ⊢
+        simp only [Bool.and_eq_true, decide_eq_true_eq] at hin
+        have hle : off ≤ rd.left := by omega
+        simp only [hle, if_true]
+        have hrdb : s.rdb = some rd := by
+          unfold Mem.rdbOffered at hro
+          split at hro
+          · rename_i r hr
+            split at hro
+            · cases hro; exact hr
+            · cases hro
+          · cases hro
+        have := hi.rdb.nonempty rd hrdb
+        cases hsg : rd.segs with
+        | nil => exact absurd hsg this
+        | cons first rest => simp
+
+/-- the snapshot's own offset is valid only while the log starts there (or nothing is held) — a3509d3 -/
+theorem snapshot_offset_valid (s : Mem) (rd : MRdb) (hro : s.rdbOffered = some rd)
+    (hv : s.inRange (rd.left : Int) = true) : (s.indexAof rd.left).isSome = true ∨ s.segs = [] := by
+  unfold Mem.inRange at hv
+  have hnn : ¬ ((rd.left : Int) < 0) := by omega
+  simp only [hnn, if_false, Int.toNat_natCast, hro, Bool.or_eq_true, Bool.and_eq_true, decide_eq_true_eq] at hv
+  rcases hv with h | ⟨_, h⟩
+  · exact Or.inl h
+  · rcases h with h | h
+    · omega
+    · exact Or.inr (List.isEmpty_iff.mp h)
+
+/-- an offered snapshot is being received or completely received, and every byte received is held -/
+theorem offered_complete_or_live (s : Mem) (hi : MemInv s) (rd : MRdb) (hro : s.rdbOffered = some rd) :
+    (rd.writing = true ∨ rd.size ≤ rd.written) ∧ mBuffered rd.segs = rd.written ∧ rd.segs ≠ [] := by
+  have hrdb : s.rdb = some rd ∧ rd.replayable = true := by
+    unfold Mem.rdbOffered at hro
+    split at hro
+    · rename_i r hr
+      split at hro
+      · rename_i hrep; cases hro; exact ⟨hr, hrep⟩
+      · cases hro
+    · cases hro
+  exact ⟨hi.rdb.live rd hrdb.1, hi.rdb.whole rd hrdb.1 hrdb.2, hi.rdb.nonempty rd hrdb.1⟩
+
+/-! ### the ghost history is tied to the appends -/
+
+theorem aofRotate_hist (s : Mem) (cur : Nat) (seg : MSeg) (rotate : Bool) :
+    (aofRotate s cur seg rotate).1.hbase = s.hbase ∧ (aofRotate s cur seg rotate).1.hist = s.hist := by
+  unfold aofRotate; cases rotate <;> exact ⟨rfl, rfl⟩
+
+theorem appendAofLoop_hist (fuel : Nat) : ∀ (s : Mem) (buf : Bytes) (done : Nat), MemInv s →
+    (Mem.appendAofLoop fuel s buf done).1.hbase = s.hbase ∧ done ≤ (Mem.appendAofLoop fuel s buf done).2.1 ∧
+    (Mem.appendAofLoop fuel s buf done).1.hist = s.hist ++ buf.take ((Mem.appendAofLoop fuel s buf done).2.1 - done) := by
+  induction fuel with
+  | zero => intro s buf done _; simp [Mem.appendAofLoop]
+  | succ fuel ih =>
+    intro s buf done hi
+    rw [appendAofLoop_succ]
+    split
+    · simp
+    · cases haw : s.aofW with
+      | none => simp
+      | some cur =>
+        dsimp only
+        cases hf : mFind s.segs cur with
+        | none => simp
+        | some seg =>
+          dsimp only
+          obtain ⟨h1, w1⟩ := aofRotate_inv s cur seg (pieceSpace s.logSize seg.data.length buf.length).2 hi haw hf
+          obtain ⟨r1, r2⟩ := aofRotate_hist s cur seg (pieceSpace s.logSize seg.data.length buf.length).2
+          obtain ⟨h2, f2⟩ := ensure_inv _ (pieceSpace s.logSize seg.data.length buf.length).1 h1
+          split
+          · refine ⟨by rw [f2.hbase, r1], Nat.le_refl _, ?_⟩
+            dsimp only
+            rw [f2.hist, r2]; simp
+          · have h3 := aofPut_inv _ _ (buf.take (pieceSpace s.logSize seg.data.length buf.length).1) h2 (by rw [f2.aofW, w1])
+            obtain ⟨i1, i2, i3⟩ := ih _ (buf.drop (pieceSpace s.logSize seg.data.length buf.length).1)
+              (done + (buf.take (pieceSpace s.logSize seg.data.length buf.length).1).length) h3
+            refine ⟨?_, by omega, ?_⟩
+            · rw [i1]; show ((aofRotate s cur seg _).1.ensure _).1.hbase = _; rw [f2.hbase, r1]
+            · rw [i3]
+              show ((aofRotate s cur seg _).1.ensure _).1.hist ++ _ ++ _ = _
+              rw [f2.hist, r2, List.append_assoc]
+              congr 1
+              -- take k buf ++ take (n - (done + |take k buf|)) (drop k buf) = take (n - done) buf
+              generalize (pieceSpace s.logSize seg.data.length buf.length).1 = k at *
+              generalize (Mem.appendAofLoop fuel _ (buf.drop k) (done + (buf.take k).length)).2.1 = n at *
+              have hlen : (buf.take k).length = min k buf.length := by simp
+              by_cases hk : k ≤ buf.length
+              · have : n - done = k + (n - (done + (buf.take k).length)) := by
+                  rw [hlen, Nat.min_eq_left hk] at i2 ⊢; omega
+                rw [this, List.take_add]
+              · have hk' : buf.length ≤ k := by omega
+                rw [List.take_of_length_le hk', List.drop_of_length_le hk']
+                simp
+                exact (List.take_of_length_le (by rw [List.take_of_length_le hk'] at i2; omega)).symm
+
+/-- how one operation may change the ghost history -/
+inductive HistStep (s s' : Mem) : Prop where
+  | same (hb : s'.hbase = s.hbase) (hh : s'.hist = s.hist)
+  | appended (bytes : Bytes) (hb : s'.hbase = s.hbase) (hh : s'.hist = s.hist ++ bytes)
+  | fresh (hh : s'.hist = [])
+
+theorem Keeps.histStep {s s' : Mem} (k : Keeps s s') : HistStep s s' := .same k.hbase k.hist
+
+theorem open_hist (s : Mem) (rid off : Nat) : (s.open rid off).1.hbase = s.hbase ∧ (s.open rid off).1.hist = s.hist := by
+  unfold Mem.open
+  repeat' split
+  all_goals exact ⟨rfl, rfl⟩
+
+theorem copyStep_hist (s : Mem) (rid : Nat) : (s.copyStep rid).1.hbase = s.hbase ∧ (s.copyStep rid).1.hist = s.hist := by
+  simp only [Mem.copyStep]
+  repeat' split
+  all_goals exact ⟨rfl, rfl⟩
+
+theorem consume_hist (s : Mem) (rid n : Nat) : (s.consume rid n).1.hbase = s.hbase ∧ (s.consume rid n).1.hist = s.hist := by
+  unfold Mem.consume
+  repeat' split
+  all_goals exact ⟨rfl, rfl⟩
+
+theorem closeReader_hist (s : Mem) (rid : Nat) : (s.closeReader rid).1.hbase = s.hbase ∧ (s.closeReader rid).1.hist = s.hist := by
+  unfold Mem.closeReader
+  repeat' split
+  all_goals exact ⟨rfl, rfl⟩
+
+theorem retry_histStep (s : Mem) (hi : MemInv s) :
+    HistStep s s.retry.1 ∧ (∀ b, s.retry.1.hist = s.hist ++ b → b ≠ [] → ∃ buf k, s.pendA = some buf ∧ b = buf.take k) := by
+  unfold Mem.retry
+  cases hpa : s.pendA with
+  | some buf =>
+    dsimp only
+    cases haw : s.aofW with
+    | none =>
+      dsimp only
+      exact ⟨.same rfl rfl, fun b hb hne => by simp at hb; exact absurd hb hne⟩
+    | some cur =>
+      dsimp only
+      obtain ⟨i1, i2, i3⟩ := appendAofLoop_hist (buf.length + 1) s buf 0 hi
+      have key : ∀ b, (Mem.appendAofLoop (buf.length + 1) s buf 0).1.hist = s.hist ++ b → b ≠ [] →
+          ∃ buf' k, some buf = some buf' ∧ b = buf'.take k := by
+        intro b hb _
+        rw [i3] at hb
+        exact ⟨buf, _, rfl, (List.append_cancel_left hb).symm⟩
+      split
+      · exact ⟨.appended _ i1 i3, key⟩
+      · exact ⟨.appended _ i1 i3, key⟩
+  | none =>
+    dsimp only
+    have nob : ∀ (s' : Mem), s'.hist = s.hist → ∀ b, s'.hist = s.hist ++ b → b ≠ [] →
+        ∃ buf k, (none : Option Bytes) = some buf ∧ b = buf.take k := by
+      intro s' he b hb hne
+      rw [he] at hb
+      have : b = [] := by simpa using hb
+      exact absurd this hne
+    cases hpr : s.pendR with
+    | none => exact ⟨.same rfl rfl, nob s rfl⟩
+    | some buf =>
+      dsimp only
+      cases hr : s.rdb with
+      | none => dsimp only; exact ⟨.same rfl rfl, nob _ rfl⟩
+      | some r =>
+        dsimp only
+        split
+        · exact ⟨.same rfl rfl, nob _ rfl⟩
+        · obtain ⟨h1, k1⟩ := appendRdbLoop_inv (buf.length + 1) s buf 0 hi
+          split
+          · exact ⟨.same k1.hbase k1.hist, nob _ k1.hist⟩
+          · have h2 : MemInv { (Mem.appendRdbLoop (buf.length + 1) s buf 0).1 with pendR := none } := ⟨h1.stream, h1.rdb⟩
+            split
+            · split
+              · obtain ⟨_, k2, _⟩ := finishRdb_inv _ false h2
+                exact ⟨.same (k2.hbase.trans k1.hbase) (k2.hist.trans k1.hist), nob _ (k2.hist.trans k1.hist)⟩
+              · exact ⟨.same k1.hbase k1.hist, nob _ k1.hist⟩
+            · exact ⟨.same k1.hbase k1.hist, nob _ k1.hist⟩
+
+/-- **the ghost is tied.** One operation leaves the written history alone, or appends to it
+    bytes of the chunk handed to the stream writer (by this call, or by an earlier call
+    that was blocked on capacity and is now retried), or starts a new, empty history. -/
+theorem step_hist (s : Mem) (op : MOp) (hi : MemInv s) :
+    ((s.step op).1.hbase = s.hbase ∧ (s.step op).1.hist = s.hist) ∨
+    (∃ chunk k, op = .aofAppend chunk ∧ (s.step op).1.hbase = s.hbase ∧ (s.step op).1.hist = s.hist ++ chunk.take k) ∨
+    (∃ buf k, op = .retryAppend ∧ s.pendA = some buf ∧ (s.step op).1.hbase = s.hbase ∧
+        (s.step op).1.hist = s.hist ++ buf.take k) ∨
+    (s.step op).1.hist = [] := by
+  cases op with
+  | setRunId id => exact Or.inl ⟨rfl, rfl⟩
+  | delRunId id =>
+    simp only [Mem.step]
+    split
+    · exact Or.inl ⟨rfl, rfl⟩
+    · exact Or.inr (Or.inr (Or.inr rfl))
+  | newRdbWriter off size => exact Or.inr (Or.inr (Or.inr rfl))
+  | rdbAppend chunk =>
+    simp only [Mem.step]
+    obtain ⟨h1, k1⟩ := appendRdbLoop_inv (chunk.length + 1) s chunk 0 hi
+    split
+    · exact Or.inl ⟨k1.hbase, k1.hist⟩
+    · split
+      · split
+        · obtain ⟨_, k2, _⟩ := finishRdb_inv _ false h1
+          exact Or.inl ⟨k2.hbase.trans k1.hbase, k2.hist.trans k1.hist⟩
+        · exact Or.inl ⟨k1.hbase, k1.hist⟩
+      · exact Or.inl ⟨k1.hbase, k1.hist⟩
+  | rdbClose =>
+    obtain ⟨_, k2, _⟩ := finishRdb_inv s false hi
+    exact Or.inl ⟨k2.hbase, k2.hist⟩
+  | newAofWriter off =>
+    simp only [Mem.step]
+    have hst := hi.stream
+    unfold StreamInv at hst
+    have tail : ∀ (s1 : Mem), MemInv s1 → s1.aofW = some s.nextSid →
+        (match s.aofW with
+          | some old => s1.finishAof old false
+          | none => s1).hbase = s1.hbase ∧
+        (match s.aofW with
+          | some old => s1.finishAof old false
+          | none => s1).hist = s1.hist := by
+      intro s1 h1 hw
+      cases haw : s.aofW with
+      | none => exact ⟨rfl, rfl⟩
+      | some old =>
+        dsimp only
+        have := (finishAof_inv s1 old false h1 (by
+          intro _ e
+          rw [hw] at e; cases e
+          obtain ⟨g, hg, hsid⟩ := hst.writer s.nextSid haw
+          have := hst.bound g (List.mem_of_getLast? hg)
+          omega)).2.1
+        exact ⟨this.hbase, this.hist⟩
+    cases hlr : mLastRight s.segs with
+    | some r =>
+      dsimp only
+      split
+      · exact Or.inl ⟨rfl, rfl⟩
+      · rename_i hne
+        have hro : r = off := by simpa using hne
+        subst hro
+        have h1 := step_inv s (.newAofWriter r) hi
+        -- the state with the new segment appended
+        rw [mLastRight_eq] at hlr
+        cases hl : s.segs.getLast? with
+        | none => rw [hl] at hlr; cases hlr
+        | some last =>
+          rw [hl] at hlr; simp at hlr
+          have hend := hst.lastEnd last hl
+          have hs1 : MemInv { s with segs := s.segs ++ [{ sid := s.nextSid, left := r, data := [], closed := false, next := none }],
+                                     aofW := some s.nextSid, nextSid := s.nextSid + 1 } :=
+            ⟨hst.pushSeg _ rfl rfl (by show r = _; rw [← hlr]; exact hend), hi.rdb.mono (Nat.le_succ _)⟩
+          have := tail _ hs1 rfl
+          exact Or.inl ⟨this.1, this.2⟩
+    | none =>
+      dsimp only
+      have hs1 : MemInv { s with segs := [{ sid := s.nextSid, left := off, data := [], closed := false, next := none }],
+                                 aofW := some s.nextSid, nextSid := s.nextSid + 1, hbase := off, hist := [] } :=
+        ⟨(StreamOk.empty s.readers s.nextSid off [] hst.seg_bound).pushSeg
+            { sid := s.nextSid, left := off, data := [], closed := false, next := none } rfl rfl (by simp),
+         hi.rdb.mono (Nat.le_succ _)⟩
+      have := tail _ hs1 rfl
+      exact Or.inr (Or.inr (Or.inr this.2))
+  | aofAppend chunk =>
+    simp only [Mem.step]
+    cases haw : s.aofW with
+    | none => exact Or.inl ⟨rfl, rfl⟩
+    | some cur =>
+      dsimp only
+      obtain ⟨i1, _, i3⟩ := appendAofLoop_hist (chunk.length + 1) s chunk 0 hi
+      split
+      · exact Or.inr (Or.inl ⟨chunk, _, rfl, i1, i3⟩)
+      · exact Or.inr (Or.inl ⟨chunk, _, rfl, i1, i3⟩)
+  | aofClose =>
+    simp only [Mem.step]
+    cases haw : s.aofW with
+    | none => exact Or.inl ⟨rfl, rfl⟩
+    | some cur =>
+      have := (finishAof_inv s cur true hi (by intro h; cases h)).2.1
+      exact Or.inl ⟨this.hbase, this.hist⟩
+  | openReader rid off => exact Or.inl (open_hist s rid off)
+  | startReader rid =>
+    simp only [Mem.step]
+    repeat' split
+    all_goals exact Or.inl ⟨rfl, rfl⟩
+  | copyStep rid => exact Or.inl (copyStep_hist s rid)
+  | consume rid n => exact Or.inl (consume_hist s rid n)
+  | closeReader rid => exact Or.inl (closeReader_hist s rid)
+  | retryAppend =>
+    obtain ⟨hs, hattr⟩ := retry_histStep s hi
+    cases hs with
+    | same hb hh => exact Or.inl ⟨hb, hh⟩
+    | fresh hh => exact Or.inr (Or.inr (Or.inr hh))
+    | appended bytes hb hh =>
+      by_cases hne : bytes = []
+      · subst hne
+        have hh' : s.retry.1.hist = s.hist := by simpa using hh
+        exact Or.inl ⟨hb, hh'⟩
+      · obtain ⟨buf, k, hp, hbk⟩ := hattr bytes hh hne
+        exact Or.inr (Or.inr (Or.inl ⟨buf, k, rfl, hp, hb, by rw [← hbk]; exact hh⟩))
 
 end GunYu.Store
